@@ -652,4 +652,16 @@ def _session_loop(self, qualname, ordinal, spec):
 
 
 Session.loop = _session_loop
+
+
+def _session_loop_kinds(self, qualname):
+    """the kinds ("for" / "while") of the loops of repo function `qualname` in pre-order (loop ordinals)"""
+    import ast as _ast
+    from .interp import _preorder
+
+    fn = self.find(qualname)
+    return ["for" if isinstance(n, _ast.For) else "while" for n in _preorder(fn.node) if isinstance(n, (_ast.For, _ast.While))]
+
+
+Session.loop_kinds = _session_loop_kinds
 from .core import concretize, PathEnd  # noqa: E402
